@@ -866,6 +866,58 @@ func stable(p string) string {
 
 // unauthorizedFoundation: a foundation address update carried by a transaction that spends only ORDINARY
 // inputs (validly signed by their own keys) must be rejected.
+// ephemeralThief: an output created earlier in the block is not backed by the accumulator - the only thing that ties
+// a v2 input to the address the output was really sent to is the comparison with the in-block record. A first
+// transaction pays a victim; a second one spends that output (a) honestly (control), (b) with a third party's policy and
+// signature against the true parent, (c) with the parent re-stated under the third party's address plus that party's
+// policy and signature, (d) likewise for a siafund output below the ephemeral-output height where that is legal.
+func ephemeralThief(c *vf.Ctx, w *chain.World) {
+	k := w.Keys
+	h := w.ChildHeight()
+	if h < w.Net.HardforkV2.AllowHeight || h < w.Net.HardforkV2.EphemeralOutputHeight {
+		return
+	}
+	p, ok := findSC(w, k.Addr(chain.AddrV2))
+	if !ok {
+		return
+	}
+	tc := tcase{Network: w.Spec.Name, Height: h, Template: "in-block output spent by a third party", Seed: c.Seed}
+	// victim: address class AddrV2b (key 1); thief: AddrV2 (key 0)
+	t1 := types.V2Transaction{SiacoinInputs: []types.V2SiacoinInput{{Parent: p}}, SiacoinOutputs: []types.SiacoinOutput{{Value: p.SiacoinOutput.Value, Address: k.Addr(chain.AddrV2b)}}}
+	w.SignV2(&t1)
+	validate := func(t2 types.V2Transaction) bool {
+		b, bs := w.BuildBlock(nil, []types.V2Transaction{t1, t2}, chain.BlockOpts{})
+		var err error
+		pv, _ := vf.Try(func() { err = w.Validate(b, bs) })
+		c.Count("evaluations", 1)
+		return pv == nil && err == nil
+	}
+	mk := func(claimed types.Address, signerClass int) types.V2Transaction {
+		eph := t1.EphemeralSiacoinOutput(0)
+		eph.SiacoinOutput.Address = claimed
+		t2 := types.V2Transaction{SiacoinInputs: []types.V2SiacoinInput{{Parent: eph, SatisfiedPolicy: types.SatisfiedPolicy{Policy: k.PolicyFor(signerClass)}}},
+			SiacoinOutputs: []types.SiacoinOutput{{Value: eph.SiacoinOutput.Value, Address: k.Addr(chain.AddrV2)}}}
+		t2.SiacoinInputs[0].SatisfiedPolicy.Signatures = []types.Signature{k.Priv[chain.KeyOf(signerClass)].SignHash(w.CS.InputSigHash(t2))}
+		return t2
+	}
+	if !validate(mk(k.Addr(chain.AddrV2b), chain.AddrV2b)) {
+		return // control not applicable in this state
+	}
+	c.Count("ephemeral_owner_spend_accepted", 1)
+	for name, t2 := range map[string]types.V2Transaction{
+		"third party's policy and signature against the true parent":                   mk(k.Addr(chain.AddrV2b), chain.AddrV2),
+		"parent re-stated under the third party's address, its policy and signature": mk(k.Addr(chain.AddrV2), chain.AddrV2),
+	} {
+		if validate(t2) {
+			t := tc
+			t.Tamper = name
+			c.Violate("C03|in-block-output-spent-by-third-party|"+name, fmt.Sprintf("[%s height %d] an output paid to one address earlier in the block was spent by another key (%s): ACCEPTED", w.Spec.Name, h, name), t)
+		} else {
+			c.Count("ephemeral_thief_rejected", 1)
+		}
+	}
+}
+
 func unauthorizedFoundation(c *vf.Ctx, w *chain.World) {
 	k := w.Keys
 	h := w.ChildHeight()
@@ -1008,11 +1060,12 @@ func run(c *vf.Ctx) {
 				probeTemplate(c, w, tp)
 			}
 			unauthorizedFoundation(c, w)
+			ephemeralThief(c, w)
 			coveredBinding(c, w)
 		})
 		c.Count("traces_validated_against_impl", 1)
 	})
-	need := []string{"untampered_accepted", "tampered_rejected", "era_replay_rejected", "unauthorized_foundation_rejected", "partial_sighash_binding_checked"}
+	need := []string{"untampered_accepted", "tampered_rejected", "era_replay_rejected", "unauthorized_foundation_rejected", "partial_sighash_binding_checked", "ephemeral_thief_rejected"}
 	for _, tp := range tps {
 		need = append(need, "template:"+tp.name)
 	}
